@@ -264,6 +264,9 @@ def check_schema_names(case) -> Res:
                     plist.append(pre + "/".join(combo))
         names = [tuple([x]) for x in plist]
         e.setdefault("cleanup_dirs", []).append(out_dir)
+    elif case[0] == "ancestor":
+        _, lo, hi = case
+        names = [("AB",), ("ME",), ("A",), ("Ab",), ("ab",)]
     else:
         lo, hi, n = case
         names = Sequences(NAME_ALPHABET, n, 1)
@@ -276,6 +279,12 @@ def check_schema_names(case) -> Res:
             with open(os.path.join(cwd, rel), "w", encoding="utf-8") as f:
                 f.write("===" + "AB" + "===\nMETA:\n  TYPE::PROTOCOL_DEFINITION\n  VERSION::\"1.0\"\n---\nFIELDS:\n  A::[\"x\"∧REQ]\n===END===\n")
     os.chdir(cwd)
+    if case[0] == "ancestor":
+        # the working directory has NO schema directory of its own; an ANCESTOR has one: it is not a schema directory of this project
+        deeper = os.path.join(cwd, "sub", "deeper")
+        os.makedirs(deeper, exist_ok=True)
+        cwd = deeper
+        os.chdir(cwd)
     import octave_mcp
     pkg = os.path.dirname(octave_mcp.__file__)
     allowed_dirs = [os.path.join(pkg, "resources", "specs", "schemas"), os.path.join(cwd, "src", "octave_mcp", "resources", "specs", "schemas"),
@@ -479,6 +488,7 @@ def run(ctx):
     total = sum(len(NAME_ALPHABET) ** k for k in range(1, n + 1))
     step = 4000
     ctx.explore("schema_names", [(lo, lo + step, n) for lo in range(0, total, step)], check_schema_names, chunk=1)
+    ctx.explore("schema_names.ancestor_dir", [("ancestor", 0, 5)], check_schema_names, chunk=1)
     ctx.explore("schema_names.paths", [("paths", lo, lo + 500) for lo in range(0, 3400, 500)], check_schema_names, chunk=1)
     for _tmpd in glob.glob("/dev/shm/vtc19n*"):
         shutil.rmtree(_tmpd, ignore_errors=True)
